@@ -236,12 +236,25 @@ def check_outcross(prog, rep):
     if good:
         rep.ok("R1-outcross", construct, "writes are swaps only; reject path undoes the swap; accept iff score < incumbent (updates incumbent, clears flag, breaks); "
                "loop ends only after a full pass over all i<j pairs without acceptance", sample={"function": construct, "paths": len(paths)})
-    # objfn: duplicates per row
+    # objfn: duplicates per row = sum over rows of (count - 1) over the row's unique entries
     for n in body:
         if isinstance(n, ast.FunctionDef):
-            txt = dump(n)
-            if "numpy.unique" in txt and "return_counts=True" in txt and ("c - 1" in txt or "- 1" in txt):
-                rep.ok("R1-outcross", construct + "#objfn", "objective = sum over rows of (unique counts - 1) = number of repeated individuals within a cross")
+            adds = [x for x in ast.walk(n) if isinstance(x, ast.AugAssign) and isinstance(x.op, ast.Add)]
+            uniq = [x for x in ast.walk(n) if isinstance(x, ast.Call) and dump(x.func) == "numpy.unique"]
+            if len(adds) == 1 and len(uniq) == 1 and "return_counts=True" in dump(uniq[0]):
+                inc = dump(adds[0].value)
+                cnt = None
+                for x in ast.walk(n):
+                    if isinstance(x, ast.Assign) and x.value is uniq[0] and isinstance(x.targets[0], ast.Tuple):
+                        cnt = dump(x.targets[0].elts[-1])
+                if cnt is not None and inc in ("numpy.sum(%s - 1)" % cnt, "(%s - 1).sum()" % cnt, "numpy.sum(%s) - len(%s)" % (cnt, cnt)):
+                    rep.ok("R1-outcross", construct + "#objfn", "objective = sum over rows of (unique counts - 1) = number of surplus copies of repeated individuals within a cross")
+                elif cnt is not None and inc in ("numpy.sum(%s > 1)" % cnt, "(%s > 1).sum()" % cnt, "numpy.count_nonzero(%s > 1)" % cnt):
+                    rep.violate("R1-outcross", construct, "the objective counts how many individuals are repeated in a cross (%s), not how many surplus copies there are: "
+                                "[a,a,a] scores like [a,a,x], so the search stops although an exchange would remove a self-pairing" % inc, where(f, adds[0]),
+                                "numpy.sum(%s - 1)" % cnt, inc)
+                else:
+                    rep.unrec("R1-outcross", construct, "objective increment %s not modelled" % inc[:50])
             else:
                 rep.unrec("R1-outcross", construct, "objective function is not the within-row duplicate count")
 
